@@ -57,6 +57,13 @@ Theorem C06_is_origin : forall st va vb i j,
   errors_is st va vb = Ok (Nat.eqb (origin st i) (origin st j)).
 Proof. exact is_origin. Qed.
 
+(* a foreign error that wraps a gerror value (fmt.Errorf("...%w", err), any depth) is matched
+   exactly as the value it wraps *)
+Theorem C06_wrapped_source : forall st va vb i j,
+  wf st -> inner_gv st va = Some i -> gv st vb = Some j ->
+  errors_is st va vb = Ok (Nat.eqb (origin st i) (origin st j)).
+Proof. exact (fun st va vb i j W => errors_is_wrapped true st W va vb i j). Qed.
+
 (* errors.Is(err, F) holds for the factory F the error was derived from *)
 Theorem C06_is_own : forall st e i vf F cF,
   wf st -> gv st e = Some i -> gv st vf = Some F -> nth_error st F = Some cF ->
@@ -220,6 +227,7 @@ Print Assumptions C06_reachable_wf.
 Print Assumptions C06_wirings_guarded.
 Print Assumptions C06_chain_keeps_factory.
 Print Assumptions C06_is_origin.
+Print Assumptions C06_wrapped_source.
 Print Assumptions C06_is_own.
 Print Assumptions C06_not_other.
 Print Assumptions C06_siblings.
